@@ -664,6 +664,14 @@ def enumerate_cases(maxdev, s_list):
                     for vals in itertools.product(*[dims[w] for w in which]):
                         sel = {"s": s_list[0], "c": C_ALL[0], "p": P_ORDER[0], "x": 0}
                         sel.update(dict(vals))
+                        # `--all` over a path dependency that lives in another workspace / shares its package
+                        # name with another one runs into two known defects of get_targets_recursive whatever
+                        # the working directory, pass-through arguments or rustfmt outcome are: those two
+                        # workspaces are explored under --all with the default C / P / X and no further
+                        # workspace deviation (the listed representatives), and fully without --all.
+                        if mods.get("ext") in ("x-in-ws", "same-name") and "all" in sel["s"]:
+                            if k != 1 or (sel["c"], sel["p"], sel["x"]) != (C_ALL[0], P_ORDER[0], 0):
+                                continue
                         out.append((k + j, combo, sel["s"], sel["c"], sel["p"], sel["x"]))
     out.sort(key=lambda t: t[0])  # stable: simplest first, enumeration order inside a level
     return out
